@@ -23,7 +23,7 @@
    Oracle-only part (check/props/c04.py): the winding-number statement for real renders, on
    adaptive octrees, with real vertex positions. *)
 From Coq Require Import Reals Lra List ZArith Bool.
-From LF Require Render.OctTreeSep.
+From LF Require Render.OctTreeSep Render.OctTreeSepC Render.OctTreeSepE Render.OctTreeFace.
 From LF Require Import Render.Pruning Render.DCGrid Render.DCGridSem Render.DCBoundary.
 From LF Require Render.DCBoundaryCont.
 From LF Require Render.OctTree Render.OctTreeCollect Render.OctTreeSem.
@@ -362,3 +362,25 @@ Print Assumptions AdaptiveDCSep.C04_edge3_reaches_every_quadruple.
 Print Assumptions AdaptiveDCSep.C04_adaptive_sign_changes_give_triangles_partial.
 Print Assumptions AdaptiveDCSep.C04_adaptive_mesh_separates_partial.
 Print Assumptions AdaptiveDCSep.C04_adaptive_quads_oriented.
+
+(* the FACE recursion reaches every quadruple too (sign-free; Render/OctTreeSepC.v, OctTreeSepD*.v, OctTreeSepE.v): for two hosts
+   c0 / c1 fitting the two sides of a face of normal N ([pffits3]) and a minimal edge of axis Qax N or Rax N lying in the face
+   plane strictly inside the face ([inface]), whose four leaves lie below the hosts, [load3]'s output is among [face3]'s.
+   Proof: one branching host holds one cube on each side across the edge, which gives the position trichotomy without any
+   dyadic-alignment argument ([cube_halves], [cube_in_host]); off the mid line the quarter face recurses, on the mid line
+   C04_edge3_reaches_every_quadruple closes it; six (N, A) cases.  Still NOT proved: the assembly over a whole tree
+   (call_face3 / walk3: 18 position cases at a branch), hence the "_partial" theorems above keep their suffix. *)
+Module AdaptiveDCSep3.
+Import OctTree OctTreeGeom OctTreeNet OctTreeFace OctTreeSem OctTreeSep OctTreeSepC OctTreeSepE.
+Local Open Scope Z_scope.
+Theorem C04_face3_reaches_every_quadruple : forall ins diag N A, oaxis N -> (A = Qax N \/ A = Rax N) ->
+  forall f c0 c1 sf k0 a b c d s k,
+  pffits3 ins N false c0 sf k0 -> pffits3 ins N true c1 sf k0 ->
+  (oheight (c_t c0) < f)%nat -> (oheight (c_t c1) < f)%nat ->
+  In a (pleaves3 c0) -> In d (pleaves3 c1) ->
+  In b (pleaves3 (if A =? Qax N then c0 else c1)) -> In c (pleaves3 (if A =? Qax N then c1 else c0)) ->
+  min_edge3 A a b c d s k -> inface N sf k0 A s k ->
+  incl (load3 diag A (c_cell a) (c_cell b) (c_cell c) (c_cell d)) (face3 diag f N (c_cell c0) (c_cell c1)).
+Proof. exact face3_complete. Qed.
+End AdaptiveDCSep3.
+Print Assumptions AdaptiveDCSep3.C04_face3_reaches_every_quadruple.
